@@ -12,6 +12,8 @@ them with its full trail; under DISABLE no trail anywhere. Also through renamed 
 import itertools
 
 from extract import scalars
+import dataclasses
+
 from harness import morph
 from harness.core import Ctx
 
@@ -292,7 +294,13 @@ def delete_at(datum, path):
     return out
 
 
-def flattened_multi_fault(ctx: Ctx, n: int):
+@dataclasses.dataclass
+class _FlatInner:
+    p: int
+    q: int
+
+
+def flattened_multi_fault(ctx: Ctx, n: int, oracle=None):
     """name_mapping layouts that spread the fields of ONE model over several nested mappings (several dict crowns inside one
     generated loader); every non-empty subset of fields is made invalid at once - a wrong value at the leaf, or the required key
     missing. ALL must report every invalid leaf exactly once at its outer path (missing keys: one NoRequiredFieldsLoadError per
@@ -307,23 +315,32 @@ def flattened_multi_fault(ctx: Ctx, n: int):
     for i in range(n):
         k = rng.randint(2, 5)
         names = [f"f{j}" for j in range(k)]
-        cls = make_dataclass(f"FL{i}", [(nm, int) for nm in names])
+        # field types: a scalar, containers and a nested model - an error raised INSIDE one of the latter already carries a
+        # trail when the outer model loader re-bases it (extend_trail instead of append_trail for nested crown paths)
+        ftypes = {nm: rng.choice(["int", "int", "list", "dict", "model"]) for nm in names}
+        hints = {"int": int, "list": list[int], "dict": dict[str, int], "model": _FlatInner}
+        values = {"int": 7, "list": [1, 2, 3], "dict": {"a": 1, "b": 2}, "model": _FlatInner(p=1, q=2)}
+        inner_pos = {"list": (1,), "dict": ("b",), "model": ("q",)}
+        cls = make_dataclass(f"FL{i}", [(nm, hints[ftypes[nm]]) for nm in names])
         paths = {nm: (*rng.choice(prefixes), nm if rng.random() < 0.7 else f"key-{nm}") for nm in names}
         mapping = {nm: (p if len(p) > 1 else p[0]) for nm, p in paths.items() if p != (nm,)}
         retorts = {m: Retort(recipe=[name_mapping(cls, map=mapping)], debug_trail=m) for m in DebugTrail}
-        good = retorts[DebugTrail.ALL].dump(cls(**{nm: j for j, nm in enumerate(names)}))
+        good = retorts[DebugTrail.ALL].dump(cls(**{nm: values[ftypes[nm]] for nm in names}))
         for _ in range(4):
             faulty = rng.sample(names, rng.randint(1, k))
-            kinds = {nm: rng.choice(["wrong", "missing"]) for nm in faulty}
-            datum, bads = good, {}
+            kinds = {nm: rng.choice(["wrong", "missing", "inner"] if ftypes[nm] != "int" else ["wrong", "missing"]) for nm in faulty}
+            datum, bads, where = good, {}, {}
             for nm, kind in kinds.items():
                 if kind == "wrong":
-                    bads[nm] = Bad()
-                    datum = replace_at(datum, paths[nm], bads[nm])
+                    bads[nm], where[nm] = Bad(), paths[nm]
+                    datum = replace_at(datum, where[nm], bads[nm])
+                elif kind == "inner":
+                    bads[nm], where[nm] = Bad(), paths[nm] + inner_pos[ftypes[nm]]
+                    datum = replace_at(datum, where[nm], bads[nm])
                 else:
                     datum = delete_at(datum, paths[nm])
             # expected reports: (outer trail, what)
-            expected = {(paths[nm], "bad:" + nm) for nm, kind in kinds.items() if kind == "wrong"}
+            expected = {(where[nm], "bad:" + nm) for nm, kind in kinds.items() if kind in ("wrong", "inner")}
             missing_at = {}
             for nm, kind in kinds.items():
                 if kind == "missing":
@@ -331,8 +348,12 @@ def flattened_multi_fault(ctx: Ctx, n: int):
             for crown, keys in missing_at.items():
                 expected.add((crown, "missing:" + ",".join(sorted(keys))))
             levels = len({paths[nm][:-1] for nm in faulty})
-            case = {"suite": "flattened", "map": {nm: list(p) for nm, p in paths.items()}, "faults": kinds}
-            ctx.note_case(case, nontrivial=len(faulty) > 1, kind=f"flattened:{min(len(faulty), 3)}-faults:{min(levels, 3)}-levels")
+            case = {"suite": "flattened", "map": {nm: list(p) for nm, p in paths.items()}, "types": ftypes, "faults": kinds}
+            ctx.note_case(case, nontrivial=len(faulty) > 1, kind=f"flattened:{min(len(faulty), 3)}-faults:{min(levels, 3)}-levels"
+                          + (":inner" if "inner" in kinds.values() else ""))
+            if oracle is not None:
+                oracle(ctx, retorts, cls, datum, case)
+                continue
 
             def describe(trail, leaf):
                 if isinstance(leaf, NoRequiredFieldsLoadError):
